@@ -55,7 +55,7 @@ package common
 // the other writers of the state: the expiry sweep only removes entries, Set swaps the current set
 //@ func (st *GuardianSetState) Cleanup()
 //@   props C03
-//@   requires st != nil && hbTable(st)
+//@   requires st != nil
 //@   ensures [cap] hbTable(st)
 //@   modifies map[peer.ID]*gossipv1.Heartbeat
 //@   loop [range st.lastHeartbeats]:
@@ -65,7 +65,7 @@ package common
 
 //@ func (st *GuardianSetState) Set(set *GuardianSet)
 //@   props C03
-//@   requires st != nil && set != nil && hbTable(st)
+//@   requires st != nil && set != nil
 //@   ensures [current] st.current == set
 //@   ensures [table-untouched] hbTable(st) && unchanged("map[peer.ID]*gossipv1.Heartbeat") && unchanged("map[common.Address]map[peer.ID]*gossipv1.Heartbeat")
 //@   modifies GuardianSetState.current
